@@ -8,8 +8,9 @@ Open Scope N_scope.
 (* case = [ claim? ; cleanup? ; qmax ; pre [[client;count]] ; state ; target ; taddr ;
             threads [[kind ; listen ; laddr+1 ; fault+1 ; nocode]] ; sched ;
             obs_threads [[res ; map+2 ; trace]] ; mains [[owner;listen;target;taddr+1;laddr+1]] ; glob ;
-            cidx [[client;owner]] ; bycode [5] ; byid [5] ; claimset ; ticked ] *)
-Definition dec_cfg (v : tval) : cfg := {| use_claim := vbool (vnth 0 v); create_cleanup := vbool (vnth 1 v) |}.
+            cidx [[client;owner]] ; bycode [5] ; byid [5] ; claimset ; ticked ; admk? ; admission markers left ] *)
+Definition dec_cfg (v : tval) : cfg :=
+  {| use_claim := vbool (vnth 0 v); create_cleanup := vbool (vnth 1 v); use_admit := vbool (vnth 17 v) |}.
 Definition dec_params (v : tval) : params :=
   let pre := map (fun e => (vn (vnth 0 e), vnat (vnth 1 e))) (vl (vnth 3 v)) in
   {| p_tgt := vn (vnth 5 v); p_taddr := vn (vnth 6 v); p_qmax := vnat (vnth 2 v);
@@ -109,7 +110,8 @@ Definition check (v : tval) : bool :=
   && all2 (fun e ov => list_eqb [fst e; N.of_nat (snd e)] (nl ov)) (isort pair_le (cidx sh)) (vl (vnth 12 v))
   && (ticked || (list_eqb (enc_rec (by_code sh)) (nl (vnth 13 v))
                  && list_eqb (enc_rec (by_id sh)) (nl (vnth 14 v))
-                 && Bool.eqb (claim sh) (vbool (vnth 15 v)))).
+                 && Bool.eqb (claim sh) (vbool (vnth 15 v))))
+  && N.eqb (N.of_nat (length (admk sh))) (vn (vnth 18 v)).
 
 Definition predict (v : tval) : tval :=
   let '(s, lg) := model_run v in
@@ -120,4 +122,5 @@ Definition predict (v : tval) : tval :=
        VL (map (fun m => VL (map VN (enc_main m))) (isort main_le (mains sh)));
        VL (map (fun i => VN (N.of_nat i)) (isort Nat.leb (glob sh)));
        VL (map (fun e => VL [VN (fst e); VN (N.of_nat (snd e))]) (isort pair_le (cidx sh)));
-       VL (map VN (enc_rec (by_code sh))); VL (map VN (enc_rec (by_id sh))); vN_of_bool (claim sh) ].
+       VL (map VN (enc_rec (by_code sh))); VL (map VN (enc_rec (by_id sh))); vN_of_bool (claim sh);
+       VN (N.of_nat (length (admk sh))) ].
